@@ -123,11 +123,11 @@ func reposMapDecode(b []byte) (ReposMap, error) {
 	}
 
 	// Length
-	l := r.uvarint()
+	l := r.length()
 	m := make(map[uint32]MinimalRepoListEntry, l)
 
 	// Pre-allocate slice for all branches
-	allBranchesLen := r.uvarint()
+	allBranchesLen := r.length()
 	allBranches := make([]RepositoryBranch, 0, allBranchesLen)
 
 	for range l {
@@ -137,12 +137,18 @@ func reposMapDecode(b []byte) (ReposMap, error) {
 		if readIndexTime {
 			indexTimeUnix = int64(r.uvarint())
 		}
-		lb := r.uvarint()
+		lb := r.length()
 		for range lb {
 			allBranches = append(allBranches, RepositoryBranch{
 				Name:    r.str(),
 				Version: r.str(),
 			})
+			if r.err != nil {
+				return nil, r.err
+			}
+		}
+		if r.err != nil {
+			return nil, r.err
 		}
 		branches := allBranches[len(allBranches)-lb:]
 		m[uint32(repoID)] = MinimalRepoListEntry{
@@ -163,7 +169,8 @@ type binaryReader struct {
 
 func (b *binaryReader) uvarint() int {
 	x, n := binary.Uvarint(b.b)
-	if n < 0 {
+	if n <= 0 {
+		// n == 0 is truncated input, n < 0 is overflow.
 		b.b = nil
 		b.err = fmt.Errorf("malformed %s", b.typ)
 		return 0
@@ -172,13 +179,21 @@ func (b *binaryReader) uvarint() int {
 	return int(x)
 }
 
-func (b *binaryReader) str() string {
+// length reads a count or a byte length. Every counted element occupies at
+// least one byte, so a length that is negative or exceeds the remaining input
+// is malformed. This bounds loops and allocations by the size of the input.
+func (b *binaryReader) length() int {
 	l := b.uvarint()
-	if l > len(b.b) {
+	if l < 0 || l > len(b.b) {
 		b.b = nil
 		b.err = fmt.Errorf("malformed %s", b.typ)
-		return ""
+		return 0
 	}
+	return l
+}
+
+func (b *binaryReader) str() string {
+	l := b.length()
 	s := b2s(b.b[:l])
 	b.b = b.b[l:]
 	return s
